@@ -584,7 +584,7 @@ def run(tier: str, seed: int) -> Result:
             ("AC", 3 if q else 4, 2), ("ABC", 3 if q else 4, 1 if q else 2), ("BD", 3 if q else 4, 1 if q else 2),
             ("B.D", 3 if q else 4, 1 if q else 2), ("debug:AB", 3 if q else 4, 1 if q else 2), ("noise:AB", 3 if q else 4, 1 if q else 2), ("recycle:AB", 3 if q else 4, 1 if q else 2),
             ("reent:", 3 if q else 4, 1 if q else 2), ("reent:A", 3 if q else 4, 1 if q else 2)]
-    budget = 100.0 if q else 1500.0
+    budget = 240.0 if q else 2400.0
     t_end = time.monotonic() + budget
     per_cfg = []
     for i, (sd, depth, bound) in enumerate(cfgs):
